@@ -317,6 +317,30 @@ fn run(ctx: &mut Ctx) {
         g_deep(cfg(tier), tier.pick(60, 100)),
         check_value,
     );
+    // values nested as deep as the reader accepts at all (the depth is measured
+    // on this tree with a plain number innermost), with every kind of atom
+    // innermost: what the printer writes there must still be read back
+    let limit = (1..=400usize)
+        .take_while(|d| lexpr::from_str(&format!("{}0{}", "(".repeat(*d), ")".repeat(*d))).is_ok())
+        .last()
+        .unwrap_or(1);
+    ctx.add_sample("near-limit", json!({"deepest_nesting_accepted_around_a_number": limit}));
+    ctx.run_prop(
+        "near-limit",
+        tier.pick(400, 8000),
+        (prop_oneof![g_atom(cfg(tier)), g_big_atom(2048)], proptest::collection::vec(0u8..3, limit.saturating_sub(4).max(1)..=limit)).prop_map(|(leaf, shape)| {
+            let mut v = leaf;
+            for s in shape {
+                v = match s {
+                    0 => MV::list(vec![v]),
+                    1 => MV::Vec(vec![v]),
+                    _ => MV::list(vec![MV::sym("a"), v]),
+                };
+            }
+            v
+        }),
+        check_value,
+    );
     // wide values: hundreds of repetitions of each construct in one text
     ctx.run_prop("wide", tier.pick(400, 10_000), g_wide(cfg(tier), tier.pick(400, 1500)), check_value);
     // atoms at the buffer-size thresholds (256 B .. 64 KiB, thorough 128 KiB), alone and followed by a string
